@@ -1,0 +1,17 @@
+//go:build verif
+
+package common
+
+// Verification hooks for property C20 (build tag "verif"); add-only, compiled out without the tag.
+
+import (
+	"crypto/cipher"
+	"sync/atomic"
+)
+
+// VerifNewCPRNGWithBlock builds a CPRNG around a caller supplied block cipher, so that a
+// recording wrapper can observe which counter blocks every Read encrypts.
+func VerifNewCPRNGWithBlock(b cipher.Block) *CPRNG { return &CPRNG{block: b} }
+
+// VerifCounter returns the current value of the block counter.
+func (c *CPRNG) VerifCounter() uint64 { return atomic.LoadUint64(&c.counter) }
